@@ -113,14 +113,28 @@ def collect_fields(
     return grouped_fields
 
 
+class ExpansionBudgetExhausted(Exception):
+    """
+    Raised by :func:`collect_fields_untyped` when its ``_budget`` is used up.
+    """
+
+
 def collect_fields_untyped(
     selections: Sequence[ast.Selection],
     fragments: Mapping[str, ast.FragmentDefinition],
     variables: Mapping[str, Any],
     _seen_fragments: Optional[Set[str]] = None,
     *,
-    skip_selection: Optional[SkipSelectionCallable] = None
+    skip_selection: Optional[SkipSelectionCallable] = None,
+    _budget: Optional[int] = None
 ) -> GroupedFields:
+    # Optional bound on the nesting of fragment expansions: cyclic fragments
+    # (invalid, but this does not validate) otherwise recurse forever.
+    if _budget is not None:
+        if _budget <= 0:
+            raise ExpansionBudgetExhausted()
+        _budget -= 1
+
     _seen_fragments = _seen_fragments or set()
     # How @skip / @include are evaluated, defaults to the strict evaluation
     # which raises CoercionError on unusable variables.
@@ -150,6 +164,7 @@ def collect_fields_untyped(
                     variables,
                     _seen_fragments,
                     skip_selection=skip_selection,
+                    _budget=_budget,
                 ),
                 into=grouped_fields,
             )
@@ -173,6 +188,7 @@ def collect_fields_untyped(
                     variables,
                     _seen_fragments,
                     skip_selection=skip_selection,
+                    _budget=_budget,
                 ),
                 into=grouped_fields,
             )
